@@ -226,6 +226,10 @@ ERR_SNIPPETS = [
     "int g(void) { return 2 *; }\n", "struct { int x; } v = { .y = 1 };\n",
     # regression input (known_findings.d/C20.json, fixed in d052c7b): the same use-after-free in pp.c next() (index % 3 == 0: also -E)
     "#define F(y) y\n#define ID(x) x\nID(F) 1\n",
+    # regression inputs: results once depended on fields mktype() never set (fixed in /repo 81778bf, 328642d)
+    "void g(void); void f(void){ void (*fp)(void) = g; fp++; }\n", "void k(void *p){ ++p; }\nstruct S; void h(struct S *q){ q--; }\n",
+    "enum E : long; enum E { A, B }; enum E x = B; int s = sizeof(enum E);\n", "enum E; enum E : long { A, B }; enum E x = B;\n",
+    "enum E : long; enum E : int { A }; int s = sizeof(enum E);\n", "int (*fa[3])(void); int (**pp)(void) = fa; void w(void){ pp++; (*pp)++; }\n",
 ]
 
 TOKRE = re.compile(r'\s+|//[^\n]*|/\*.*?\*/|"(?:\\.|[^"\\\n])*"|\'(?:\\.|[^\'\\\n])*\'|[A-Za-z_]\w*|\.?\d(?:[eEpP][+-]|[\w.])*'
@@ -452,28 +456,69 @@ def strinit_inputs(ctx, add):
     ctx.cov["strinit_inputs"] = n
 
 
-def pool_inputs(ctx, add, prop, count):
-    """inputs other properties' generators produced (corpus/pool.tar.xz, see corpus/README): initializer shapes of C07's Init.tla"""
+def pool_inputs(ctx, add, special, default):
+    """inputs other properties' generators produced (corpus/pool.tar.xz, see corpus/README): a slice of every directory
+    (valid and invalid programs, macro histories, literals, initializer shapes of C07's Init.tla ...)"""
     import tarfile
     path = os.path.join(vlib.VERIF, "corpus", "pool.tar.xz")
     if not os.path.exists(path):
         ctx.cov["pool_inputs"] = "corpus/pool.tar.xz absent"
         return
-    members = []
+    by = {}
     with tarfile.open(path, "r:xz") as tf:
         for m in tf:
-            if m.isfile() and m.name.startswith(prop + "/") and m.name.endswith(".c"):
-                members.append((m.name, tf.extractfile(m).read()))
-    members.sort()
-    ctx.rng.shuffle(members)
-    k = 0
-    for name, data in members[:count]:
-        base = os.path.basename(name)[:-2].split("+")
-        if len(base) != 3 or base[1] not in vlib.TARGETS or base[2] not in ("c", "E"):
+            if m.isfile() and m.name.endswith(".c") and "/" in m.name:
+                by.setdefault(m.name.split("/")[0], []).append((m.name, tf.extractfile(m).read()))
+    used = {}
+    for prop in sorted(by):
+        if prop == "C20":
             continue
-        add("pool:%s:%s" % (prop, base[0]), data, base[1], base[2])
-        k += 1
-    ctx.cov["pool_inputs"] = {"property": prop, "available": len(members), "used": k}
+        members = sorted(by[prop])
+        ctx.rng.shuffle(members)
+        k = 0
+        for name, data in members[:special.get(prop, default)]:
+            base = os.path.basename(name)[:-2].split("+")
+            if len(base) != 3 or base[1] not in vlib.TARGETS or base[2] not in ("c", "E"):
+                continue
+            add("pool:%s:%s" % (prop, base[0]), data, base[1], base[2])
+            k += 1
+        used[prop] = "%d/%d" % (k, len(members))
+    ctx.cov["pool_inputs"] = used
+
+
+# ---- macro invocations with the wrong number of arguments -------------------------------------------------
+# The argument array of a macro invocation is malloc'ed per invocation; an argument slot that an (accepted or half-diagnosed)
+# short invocation never writes is whatever the allocator returned.  Every short / long / empty-argument invocation shape, each
+# right after a fully-argumented invocation of the same macro (so that a recycled chunk holds stale tokens).
+def macroarg_inputs(ctx, add):
+    n = 0
+    for np in (1, 2, 3):
+        for va in (False, True):
+            names = ["p%d" % k for k in range(1, np + 1)]
+            params = ", ".join(names + (["..."] if va else []))
+            body = "f(%s)" % ", ".join(names + (["__VA_ARGS__"] if va else []))
+            sbody = "g(%s)" % ", ".join(["#" + x for x in names] + (["#__VA_ARGS__"] if va else []))
+            full = ", ".join(str(10 + k) for k in range(np)) + (", 77, 78" if va else "")
+            shapes = {
+                "full": full,
+                "named": ", ".join(str(20 + k) for k in range(np)),                       # exactly the named ones (variadic: no varargs)
+                "namedcomma": ", ".join(str(20 + k) for k in range(np)) + ",",            # named + empty variable part / one empty extra
+                "none": "",
+                "short": ", ".join(str(30 + k) for k in range(np - 1)),                  # one short
+                "many": ", ".join(str(40 + k) for k in range(np + 2)),
+                "empties": ", ".join("" for k in range(np + (1 if va else 0))),           # all arguments empty
+                "emptyfirst": ", ".join([""] + [str(50 + k) for k in range(np - 1 + (1 if va else 0))]),
+                "parens": ", ".join("(%d, %d)" % (k, k) for k in range(np)),
+            }
+            for sname, args in shapes.items():
+                text = ("int f(int, ...); int g(const char *, ...);\n#define M(%s) %s\n#define S(%s) %s\n"
+                        "int h(void) { return M(%s) + M(%s) + M(%s); }\nint k(void) { return S(%s) + S(%s) + S(%s); }\n"
+                        % (params, body, params, sbody, full, args, full, full, args, full))
+                tag = "margs:%d%s:%s" % (np, "v" if va else "", sname)
+                add(tag, text.encode(), "x86_64-sysv", "c")
+                add(tag + ":E", text.encode(), "x86_64-sysv", "E")
+                n += 2
+    ctx.cov["macroarg_inputs"] = n
 
 
 def make_inputs(ctx):
@@ -505,7 +550,8 @@ def make_inputs(ctx):
             add("err:%d:E" % k, s.encode("latin-1"), "x86_64-sysv", "E")
     growth_inputs(ctx, add)
     strinit_inputs(ctx, add)
-    pool_inputs(ctx, add, "C07", 150 if ctx.quick else 1200)
+    macroarg_inputs(ctx, add)
+    pool_inputs(ctx, add, {"C07": 150 if ctx.quick else 1200}, 25 if ctx.quick else 300)
     texts = [(n, t.decode("latin-1"), a, m) for n, t, a, m in cor]
     pool = sorted({tok for _, t, _, _ in texts for tok in TOKRE.findall(t) if not tok.isspace() and len(tok) < 40}) + EXTRA_TOKS
     ntrunc, nmut = (60, 260) if ctx.quick else (200, 1200)
